@@ -349,7 +349,7 @@ func (h *Hist) scan(faults map[int]bool, failDesc map[string]bool) (string, erro
 		h.rec.FailDesc[k] = v
 	}
 	h.rec.Conflict = conflict
-	h.rec.AwsCode = h.r.pick("", "", "Throttling", "RequestLimitExceeded", "ExpiredToken", "ValidationError", "ThrottlingException")
+	h.rec.AwsCode = h.r.pick("", "Throttling", "Throttling", "RequestLimitExceeded", "ExpiredToken", "ValidationError", "ThrottlingException")
 	// informer caches hand out shared objects: the controller must treat them as read-only
 	snapNodes := make([]*v1.Node, len(h.nodeL.nodes))
 	for i, n := range h.nodeL.nodes {
